@@ -100,11 +100,15 @@ PRIM = {"Z": ("Zahl", "Zahlen", "f"), "K": ("Kommazahl", "Kommazahlen", "f"), "B
 
 
 def tname(t):
+    if "g" in t:
+        return t["g"]
     if "b" in t:
         return PRIM[t["b"]][0]
     if "s" in t:
         return t["s"]
     e = t["l"]
+    if "g" in e:
+        return e["g"] + " Liste"
     if "b" in e:
         return PRIM[e["b"]][1] + " Liste"
     if "s" in e:
@@ -113,6 +117,8 @@ def tname(t):
 
 
 def tgender(t):
+    if "g" in t:
+        return "n"
     if "b" in t:
         return PRIM[t["b"]][2]
     if "s" in t:
@@ -237,7 +243,7 @@ def rlv(lv):
 
 def article(t, case="nom"):
     g = tgender(t)
-    return {"nom": {"f": "Die", "m": "Der"}, "akk": {"f": "eine", "m": "einen"}, "jede": {"f": "jede", "m": "jeden"}}[case][g]
+    return {"nom": {"f": "Die", "m": "Der", "n": "Das"}, "akk": {"f": "eine", "m": "einen", "n": "ein"}, "jede": {"f": "jede", "m": "jeden", "n": "jedes"}}[case][g]
 
 
 def rstmts(ss, ind):
@@ -306,12 +312,57 @@ def rtype_ret(t):
     return "%s %s" % (article(t, "akk"), "Buchstaben" if t == TC else tname(t))
 
 
+def rfuncs(funcs, extern_funcs=(), public=False):
+    lines = []
+    for fd in funcs:
+        ps = fd["params"]
+        kind = ("öffentliche " if public else "") + ("generische " if fd.get("generic") else "")
+        ext = "ist extern sichtbar, " if fd["n"] in extern_funcs else ""
+        if not ps:
+            head = "Die %sFunktion %s gibt %s zurück, %smacht:" % (kind, fd["n"], rtype_ret(fd["ret"]), ext)
+        elif len(ps) == 1:
+            head = "Die %sFunktion %s mit dem Parameter %s vom Typ %s, gibt %s zurück, %smacht:" % (kind, fd["n"], ps[0]["n"], rparamtype(ps[0]), rtype_ret(fd["ret"]), ext)
+        else:
+            names = ", ".join(p["n"] for p in ps[:-1]) + " und " + ps[-1]["n"]
+            types = ", ".join(rparamtype(p) for p in ps[:-1]) + " und " + rparamtype(ps[-1])
+            head = "Die %sFunktion %s mit den Parametern %s vom Typ %s, gibt %s zurück, %smacht:" % (kind, fd["n"], names, types, rtype_ret(fd["ret"]), ext)
+        lines.append(head)
+        lines += rstmts(fd["body"], 1)
+        lines.append("Und kann so benutzt werden:")
+        lines.append('\t"%s"' % " ".join([fd["n"]] + ["<%s>" % p["n"] for p in ps]))
+        lines.append("")
+    return lines
+
+
+def rstructs(structs, public=False):
+    lines = []
+    for sd in structs:
+        lines.append("Wir nennen die %sKombination aus" % ("öffentliche " if public else ""))
+        for f in sd["fields"]:
+            d = "" if f["def"]["k"] == "none" else " mit Standardwert %s" % rexpr(f["def"])
+            lines.append("\t%s %s%s %s%s," % ({"f": "der", "m": "dem", "n": "dem"}[tgender(f["t"])], "öffentlichen " if public else "", tname(f["t"]), f["n"], d))
+        alias = "ein %s mit %s" % (sd["n"], " und ".join("%s gleich <%s>" % (f["n"], f["n"]) for f in sd["fields"]))
+        lines.append('einen %s, und erstellen sie so:\n\t"%s" oder\n\t"ein leerer %s"' % (sd["n"], alias, sd["n"]))
+        lines.append("")
+    return lines
+
+
+def render_with_lib(P, libfuncs):
+    """functions named in libfuncs (and all Kombinationen) live in the imported module lib.ddp; returns {file: text}"""
+    lib = ['Binde "Duden/Ausgabe" ein.', ""] + rstructs(P["structs"], public=True) + rfuncs([f for f in P["funcs"] if f["n"] in libfuncs], public=True)
+    n = P.get("nearly", 0)
+    main = ['Binde "Duden/Ausgabe" ein.', 'Binde "lib" ein.', ""] + rstmts(P["main"][:n], 0) + [""] + rfuncs([f for f in P["funcs"] if f["n"] not in libfuncs]) + rstmts(P["main"][n:], 0)
+    return {"lib.ddp": "\n".join(lib) + "\n", "main.ddp": "\n".join(main) + "\n"}
+
+
 def rparamtype(p):
     t = p["t"]
     if not p["ref"]:
         return tname(t)
     if "l" in t:
         return tname(t) + "n Referenz"
+    if "g" in t:
+        return t["g"] + " Referenz"
     if "b" in t:
         return {"Z": "Zahlen Referenz", "K": "Kommazahlen Referenz", "C": "Buchstaben Referenz", "V": "Variablen Referenz"}.get(t["b"], tname(t) + " Referenz")
     return tname(t) + " Referenz"
@@ -334,13 +385,13 @@ def render(P, extern_funcs=()):
     for fd in P["funcs"]:
         ps = fd["params"]
         if not ps:
-            head = "Die Funktion %s gibt %s zurück, %smacht:" % (fd["n"], rtype_ret(fd["ret"]), "ist extern sichtbar, " if fd["n"] in extern_funcs else "")
+            head = "Die %sFunktion %s gibt %s zurück, %smacht:" % ("generische " if fd.get("generic") else "", fd["n"], rtype_ret(fd["ret"]), "ist extern sichtbar, " if fd["n"] in extern_funcs else "")
         elif len(ps) == 1:
-            head = "Die Funktion %s mit dem Parameter %s vom Typ %s, gibt %s zurück, macht:" % (fd["n"], ps[0]["n"], rparamtype(ps[0]), rtype_ret(fd["ret"]))
+            head = "Die %sFunktion %s mit dem Parameter %s vom Typ %s, gibt %s zurück, macht:" % ("generische " if fd.get("generic") else "", fd["n"], ps[0]["n"], rparamtype(ps[0]), rtype_ret(fd["ret"]))
         else:
             names = ", ".join(p["n"] for p in ps[:-1]) + " und " + ps[-1]["n"]
             types = ", ".join(rparamtype(p) for p in ps[:-1]) + " und " + rparamtype(ps[-1])
-            head = "Die Funktion %s mit den Parametern %s vom Typ %s, gibt %s zurück, macht:" % (fd["n"], names, types, rtype_ret(fd["ret"]))
+            head = "Die %sFunktion %s mit den Parametern %s vom Typ %s, gibt %s zurück, macht:" % ("generische " if fd.get("generic") else "", fd["n"], names, types, rtype_ret(fd["ret"]))
         lines.append(head)
         lines += rstmts(fd["body"], 1)
         lines.append("Und kann so benutzt werden:")
@@ -430,13 +481,19 @@ class Runner:
         return d
 
     def run_sources(self, sources, opts=(1,), ledger=False, asan=False, keep=False, cfgs=("LL",)):
-        """sources: list of str (single-file programs). Returns list of dict(build=..., runs={opt: result})"""
+        """sources: list of str (single-file programs) or dicts {file: text} whose main file is main.ddp.
+        Returns list of dict(build=..., runs={opt: result})"""
         dirs = [self.newdir() for _ in sources]
 
         def one(i):
             d = dirs[i]
-            with open(os.path.join(d, "m.ddp"), "w") as f:
-                f.write(sources[i])
+            if isinstance(sources[i], dict):
+                for rel, text in sources[i].items():
+                    with open(os.path.join(d, "m.ddp" if rel == "main.ddp" else rel), "w") as f:
+                        f.write(text)
+            else:
+                with open(os.path.join(d, "m.ddp"), "w") as f:
+                    f.write(sources[i])
             res = dict(dir=d, runs={}, fail={})
             for o in opts:
                 for cfg in cfgs:
@@ -448,7 +505,7 @@ class Runner:
                     res["runs"][key] = self.execute(exe, ledger=ledger, asan=asan)
             if not keep:
                 for f in os.listdir(d):
-                    if not f.endswith(".ledger") and f != "m.ddp":
+                    if not f.endswith(".ledger") and not f.endswith(".ddp"):
                         try:
                             os.remove(os.path.join(d, f))
                         except OSError:
